@@ -17,8 +17,7 @@ CheckOK(e) ==
          /\ v.out = e.out                                  \* invariance (statement level)
          /\ v.out = Expected(v.ngens, v.relators)          \* and each variant on its own
 Next == /\ l <= Len(Rec)
-        /\ "panic" \notin DOMAIN Rec[l]
-        /\ CheckOK(Rec[l])
+        /\ ("panic" \notin DOMAIN Rec[l] /\ CheckOK(Rec[l])) = TRUE
         /\ l' = l + 1
 Spec == Init /\ [][Next]_l
 Accepted == LET d == TLCGet("stats").diameter IN
